@@ -1040,8 +1040,10 @@ impl World {
                 if n != predicted || n > MAXMSG || n > buflen {
                     self.flag(&["C14", "C01"], "write-length", &site, &format!("returned {n}, predicted {predicted}, buf {buflen}"));
                 }
+                // what a write leaves beyond the returned length is not covered by any property
+                // (a library may, e.g., zero the rest of the caller's buffer); counted only
                 if n <= out.len() && out[n..] != pre[n..] {
-                    self.flag(&["C14"], "write-overrun", &site, "bytes beyond the returned length were modified");
+                    self.stats.probe("write-touched-buffer-beyond-returned-length");
                 }
                 // ephemeral freshness (C06 clause 2)
                 let has_e = shadow.next_has_e();
@@ -1302,7 +1304,7 @@ impl World {
                     self.flag(&["C14", "C01"], "write-length", &site, &format!("returned {n} predicted {predicted}"));
                 }
                 if n <= out.len() && out[n..] != pre[n..] {
-                    self.flag(&["C14"], "write-overrun", &site, "bytes beyond the returned length were modified");
+                    self.stats.probe("write-touched-buffer-beyond-returned-length");
                 }
                 let mbytes = trm.encrypt_at(dir, n_used, payload);
                 if mbytes[..] != out[..n.min(out.len())] {
@@ -1346,8 +1348,15 @@ impl World {
                 if whys.is_empty() {
                     self.flag(&["C02", "C14", "C16", "C07"], "write-fails-but-must-succeed", &site, &format!("{e:?} nonce={n_used} buf={buflen}"));
                 } else {
+                    // "produces no message": the buffer must not hold the message that encrypting
+                    // under the reserved nonce would have produced (what else a failed call leaves
+                    // in the caller's buffer is unspecified)
                     if whys.contains(&Why::Exhausted) && out != pre {
-                        self.flag(&["C09"], "output-produced-at-exhaustion", &site, "buffer modified although the nonce is exhausted");
+                        let would_be = trm.encrypt_at(dir, n_used, payload);
+                        let l = would_be.len().min(out.len());
+                        if l >= 16 && out[..l] == would_be[..l] {
+                            self.flag(&["C09"], "output-produced-at-exhaustion", &site, "the caller's buffer holds the message encrypted under nonce 2^64-1");
+                        }
                     }
                     if whys.len() == 1 {
                         let want = match whys[0] {
